@@ -6,7 +6,37 @@ import glob
 from . import irparse, eir
 
 REPO = os.environ.get("VERIF_REPO", "/repo")
-WORK = os.environ.get("VERIF_WORK", os.path.join(os.path.dirname(os.path.dirname(os.path.abspath(__file__))), ".work"))
+_WORK_BASE = os.environ.get("VERIF_WORK", os.path.join(os.path.dirname(os.path.dirname(os.path.abspath(__file__))), ".work"))
+# One scratch tree per check process (run-<pid>): checks for different properties share program tags (C18 reuses C06's and C07's programs, ...),
+# and workdir() wipes its directory, so two checks running at the same time must not share a tree.  Forked obligation workers inherit WORK.
+_OWNER = os.getpid()
+WORK = os.path.join(_WORK_BASE, "run-%d" % _OWNER)
+
+
+def _cleanup():
+    if os.getpid() == _OWNER:
+        shutil.rmtree(WORK, ignore_errors=True)
+
+
+def _reap_stale():
+    """remove trees left behind by runs that were killed"""
+    try:
+        for d in os.listdir(_WORK_BASE):
+            if d.startswith("run-"):
+                try:
+                    os.kill(int(d[4:]), 0)
+                except (ProcessLookupError, ValueError):
+                    shutil.rmtree(os.path.join(_WORK_BASE, d), ignore_errors=True)
+                except PermissionError:
+                    pass
+    except FileNotFoundError:
+        pass
+
+
+import atexit
+_reap_stale()
+os.makedirs(WORK, exist_ok=True)
+atexit.register(_cleanup)
 
 IRFLAGS = ["-std=c++17", "-O1", "-fno-inline", "-fno-vectorize", "-fno-slp-vectorize", "-fno-unroll-loops",
            "-fno-exceptions", "-S", "-emit-llvm"]
